@@ -11,6 +11,7 @@ import (
 	"os"
 	"sort"
 	"testing"
+	"time"
 
 	"github.com/hujm2023/go-sms-protocol/codec"
 	"pgregory.net/rapid"
@@ -35,6 +36,7 @@ type conn struct {
 	failErr   error
 	transient bool // the injected error is returned once, later reads succeed again
 	failed    bool
+	dataErr   bool // the last octets of the stream are returned TOGETHER with io.EOF (allowed by io.Reader)
 	readSoFar int
 }
 
@@ -88,6 +90,9 @@ func (c *conn) Read(p []byte) (int, error) {
 	}
 	c.buf = c.buf[n:]
 	c.readSoFar += n
+	if c.dataErr && len(c.buf) == 0 && len(c.pending) == 0 && n > 0 {
+		return n, io.EOF
+	}
 	return n, nil
 }
 
@@ -98,9 +103,10 @@ type Case struct {
 	Tail      string   `json:"tail"`   // hex: extra octets after the frames (a truncated frame or a malformed prefix)
 	Cuts      []int    `json:"cuts"`   // offsets at which the stream is cut into arrival chunks
 	NilShort  bool     `json:"nil_short"`
-	FailAt    int      `json:"fail_at"`             // blocking: inject a read error at this stream offset (-1 none)
-	FailKind  string   `json:"fail_kind,omitempty"` // "" plain error | "timeout" (net.Error timeout, os.ErrDeadlineExceeded) | "eof" (io.ErrUnexpectedEOF)
-	Transient bool     `json:"transient,omitempty"` // the injected error occurs once; the stream continues afterwards
+	FailAt    int      `json:"fail_at"`                 // blocking: inject a read error at this stream offset (-1 none)
+	FailKind  string   `json:"fail_kind,omitempty"`     // "" plain error | "timeout" (net.Error timeout, os.ErrDeadlineExceeded) | "eof" (io.ErrUnexpectedEOF)
+	Transient bool     `json:"transient,omitempty"`     // the injected error occurs once; the stream continues afterwards
+	DataErr   bool     `json:"data_with_eof,omitempty"` // blocking: the final octets arrive together with io.EOF in one Read
 	// Prelude: octets of ANOTHER connection on which the same codec value is used first and which is left
 	// with an incomplete frame (codec values are stateless by contract and may be shared between connections).
 	Prelude string `json:"prelude,omitempty"`
@@ -242,7 +248,7 @@ func run(c Case) *vk.Violation {
 		return nil
 	}
 	// blocking
-	cn := &conn{pending: c.chunks(s), failAt: c.FailAt, failErr: c.failErr(), transient: c.Transient}
+	cn := &conn{pending: c.chunks(s), failAt: c.FailAt, failErr: c.failErr(), transient: c.Transient, dataErr: c.DataErr}
 	off := 0
 	for i := 0; i <= len(frames); i++ {
 		f, err := cd.DecodeBlocked(cn)
@@ -359,6 +365,9 @@ func drawCase(t *rapid.T) Case {
 		c.FailKind = rapid.SampledFrom([]string{"", "timeout", "eof"}).Draw(t, "failkind")
 		c.Transient = rapid.Bool().Draw(t, "transient")
 	}
+	if c.Mode == "blocking" && c.FailAt < 0 {
+		c.DataErr = rapid.Bool().Draw(t, "datawitheof")
+	}
 	if rapid.IntRange(0, 3).Draw(t, "prelude") == 0 {
 		// another connection served by the same codec value, left inside a frame
 		f := frameOf(bodyGen.Draw(t, "preludeframe"))
@@ -402,7 +411,7 @@ func eval(t vk.TB, c Case, constructed bool) {
 		if constructed {
 			rec.NonTrivialConstructed(1)
 		} else {
-			rec.NonTrivial(c.Codec, c.Mode, fmt.Sprint(c.Frames), c.Tail, fmt.Sprint(c.Cuts), c.FailAt, c.NilShort, c.FailKind, c.Transient, c.Prelude)
+			rec.NonTrivial(c.Codec, c.Mode, fmt.Sprint(c.Frames), c.Tail, fmt.Sprint(c.Cuts), c.FailAt, c.NilShort, c.FailKind, c.Transient, c.Prelude, c.DataErr)
 		}
 		rec.Class("nontrivial:" + c.Mode)
 	}
@@ -421,6 +430,9 @@ func eval(t vk.TB, c Case, constructed bool) {
 	}
 	if c.Prelude != "" {
 		rec.Class("codec_value_shared_with_another_connection")
+	}
+	if c.DataErr {
+		rec.Class("final_octets_returned_together_with_EOF")
 	}
 	if s, _ := c.stream(); len(s) <= 80 {
 		rec.Sample(c.Mode, c)
@@ -468,6 +480,7 @@ func TestEverySingleCut(t *testing.T) {
 				idx++
 				eval(t, Case{Codec: cdc, Mode: "nonblocking", Frames: frames, Cuts: []int{cut}, NilShort: cut%2 == 0, FailAt: -1}, true)
 				eval(t, Case{Codec: cdc, Mode: "blocking", Frames: frames, Cuts: []int{cut}, FailAt: -1}, true)
+				eval(t, Case{Codec: cdc, Mode: "blocking", Frames: frames, Cuts: []int{cut}, FailAt: -1, DataErr: true}, true)
 				eval(t, Case{Codec: cdc, Mode: "blocking", Frames: frames, Cuts: []int{total / 2}, FailAt: cut}, true)
 				eval(t, Case{Codec: cdc, Mode: "blocking", Frames: frames, Cuts: []int{total / 3}, FailAt: cut, FailKind: "timeout", Transient: true}, true)
 				if cut%7 == 0 {
@@ -490,4 +503,98 @@ func TestEverySingleCut(t *testing.T) {
 	}
 	rec.Exhaustive(fmt.Sprintf("every single cut position, every truncation/injected-error offset and every malformed prefix 0..3 for %d short streams x 2 codecs", nstreams))
 	_ = idx
+}
+
+// gated is a blocking reader whose Read calls can be held back: it lets a test place the prefix read of
+// one connection between the prefix read and the body read of another.
+type gated struct {
+	data  []byte
+	reads int
+	gate  map[int]chan struct{} // Read number -> wait for this before serving it
+	done  map[int]chan struct{} // Read number -> closed after serving it
+}
+
+func (g *gated) Read(p []byte) (int, error) {
+	g.reads++
+	if ch, ok := g.gate[g.reads]; ok {
+		<-ch
+	}
+	if len(g.data) == 0 {
+		return 0, io.EOF
+	}
+	n := copy(p, g.data)
+	g.data = g.data[n:]
+	if ch, ok := g.done[g.reads]; ok {
+		close(ch)
+	}
+	return n, nil
+}
+func (g *gated) Peek(n int) ([]byte, error) { return nil, errShort }
+func (g *gated) Discard(n int) (int, error) { return 0, errShort }
+func (g *gated) Size() int                  { return 0 }
+
+type ConcCase struct {
+	Codec string `json:"codec"`
+	A     string `json:"frame_a"` // hex
+	B     string `json:"frame_b"`
+}
+
+// checkConcurrent: one codec value serves two connections from two goroutines (codec values carry no
+// per-connection state by contract). Connection A has delivered its prefix and waits for its body while
+// connection B's frame is extracted completely; both must come back exactly as sent.
+func checkConcurrent(c ConcCase) *vk.Violation {
+	fa, fb := vk.UnHex(c.A), vk.UnHex(c.B)
+	cd := newCodec(c.Codec)
+	aPrefixDone, bDone := make(chan struct{}), make(chan struct{})
+	ra := &gated{data: append([]byte{}, fa...), gate: map[int]chan struct{}{2: bDone}, done: map[int]chan struct{}{1: aPrefixDone}}
+	rb := &gated{data: append([]byte{}, fb...), gate: map[int]chan struct{}{1: aPrefixDone}}
+	var ga, gb []byte
+	var ea, eb error
+	fin := make(chan struct{}, 2)
+	var v *vk.Violation
+	pn := vk.Guarded("concurrent", c.Codec+"/concurrent/hang", func() any { return c }, func() {
+		go func() { ga, ea = cd.DecodeBlocked(ra); fin <- struct{}{} }()
+		go func() { gb, eb = cd.DecodeBlocked(rb); close(bDone); fin <- struct{}{} }()
+		for i := 0; i < 2; i++ {
+			select {
+			case <-fin:
+			case <-time.After(8 * time.Second):
+				v = vk.Violf(c.Codec+"/concurrent/stuck", c, "two DecodeBlocked calls on one codec value did not finish")
+				return
+			}
+		}
+	})
+	if pn != "" {
+		return vk.Violf(c.Codec+"/concurrent/panic", c, "panic\n%s", pn)
+	}
+	if v != nil {
+		return v
+	}
+	if ea != nil || eb != nil {
+		return vk.Violf(c.Codec+"/concurrent/error", c, "errors %v / %v on complete frames", ea, eb)
+	}
+	if !bytes.Equal(ga, fa) || !bytes.Equal(gb, fb) {
+		return vk.Violf(c.Codec+"/concurrent/frame-content", c, "one codec value, two connections: connection A got %x (sent %x), connection B got %x (sent %x)", clip(ga), clip(fa), clip(gb), clip(fb))
+	}
+	return nil
+}
+
+func init() {
+	reg["concurrent"] = func(raw json.RawMessage) *vk.Violation {
+		var c ConcCase
+		_ = json.Unmarshal(raw, &c)
+		return checkConcurrent(c)
+	}
+}
+
+func TestSharedCodecTwoConnections(t *testing.T) {
+	rapid.Check(t, func(t *rapid.T) {
+		c := ConcCase{Codec: rapid.SampledFrom([]string{"cmpp", "smpp"}).Draw(t, "codec"),
+			A: vk.Hex(frameOf(rapid.SliceOfN(rapid.Byte(), 1, 40).Draw(t, "a"))), B: vk.Hex(frameOf(rapid.SliceOfN(rapid.Byte(), 0, 40).Draw(t, "b")))}
+		rec.Eval()
+		rec.NonTrivial("conc", c.Codec, c.A, c.B)
+		rec.Class("one_codec_value_two_goroutines")
+		rec.Sample("concurrent", c)
+		rec.Report(t, "concurrent", checkConcurrent(c))
+	})
 }
